@@ -15,13 +15,16 @@ warnings.simplefilter('ignore', SyntaxWarning)
 VALUE_NAMES = ('a', 'b', 'c', 'd', 'e', 'g', 'h', 'i', 'j')       # free names that are varied
 VALUE_NAME_SET = frozenset(VALUE_NAMES)
 LOOP_NAMES = ('x', 'y', 'z', 'u', 'v', 'w')               # only ever bound by for-clauses
-DOMAIN = (0, 's', 1, '', None, 2)                          # prefix of length k is the domain of size k
+DOMAIN = (0, 's', None, 1, '', 2)                          # prefix of length k is the domain of size k
 # size of the per-name domain as a function of the number of distinct free value names (full product is run)
-DOMAIN_SIZE = {0: 1, 1: 6, 2: 6, 3: 5, 4: 3, 5: 3}   # 6+ names -> 2
+DOMAIN_SIZE = {0: 1, 1: 6, 2: 6, 3: 5, 4: 3, 5: 3}   # 6+ names -> 2 (3 when the source tests for None: None is added)
 
 
-def domain_for(nnames):
-    return DOMAIN[:DOMAIN_SIZE.get(nnames, 2)]
+def domain_for(nnames, needs_none=False):
+    dom = DOMAIN[:DOMAIN_SIZE.get(nnames, 2)]
+    if needs_none and None not in dom:
+        dom = dom + (None,)            # `x is None` / `x == None` must be observable on both outcomes
+    return dom
 
 
 class Obj(object):
@@ -143,7 +146,7 @@ class BadCase(Exception):
 
 
 class Prepared(object):
-    __slots__ = ('src', 'mode', 'tree', 'top', 'is_gen', 'params', 'value_names', 'closure_names',
+    __slots__ = ('src', 'mode', 'tree', 'top', 'is_gen', 'params', 'value_names', 'closure_names', 'tests_none',
                  'code_src', 'code_iter0', 'maker', 'inner_code', 'njumps')
 
 
@@ -172,6 +175,7 @@ def prepare(src, mode):
         if isinstance(n, ast.Name):
             names.add(n.id)
     names.update(p.params)
+    p.tests_none = ' None' in src
     unknown = [n for n in names if n not in VALUE_NAME_SET and n not in FIXED_NAME_SET and n not in LOOP_NAMES]
     if unknown:
         raise BadCase('unknown names %r in %r' % (unknown, src))
@@ -211,7 +215,7 @@ def make_object(p, env):
 
 def assignments(p):
     names = p.value_names
-    dom = domain_for(len(names))
+    dom = domain_for(len(names), p.tests_none)
     for combo in itertools.product(dom, repeat=len(names)):
         yield dict(zip(names, combo))
 
